@@ -547,6 +547,7 @@ func (g *Generator) generateBindingFile(file *protogen.File) error {
 	gf.P("// Handle repeated fields (arrays)")
 	gf.P("if field.IsList() {")
 	gf.P("list := reflectMsg.Mutable(field).List()")
+	gf.P("list.Truncate(0) // the URL replaces what the body carried for this field")
 	gf.P("for _, v := range values {")
 	gf.P("converted, err := convertStringToFieldValue(v, field.Kind())")
 	gf.P("if err != nil {")
